@@ -30,6 +30,17 @@ HANDLERS = {
 }
 
 
+def _flat_conds(conds):
+    """path conditions with conjunctions flattened: [(term, polarity)]"""
+    out = []
+    for t, pol in conds:
+        if pol and is_t(t, "bool") and t[1] == "and":
+            out += [(x, True) for x in t[2]]
+        else:
+            out.append((t, pol))
+    return out
+
+
 def analyse(obs: Obs, prog):
     m = prog.module(MOD)
     W = lambda c, meth: f"{c.module.rel}:{c.methods[meth].lineno}"
@@ -243,6 +254,18 @@ def analyse(obs: Obs, prog):
     r = ev.eval_fn(ST.methods["get_inner_trace"], ST.module, ST)
     oki = all(is_t(t, "index") and t[1] == subs for c, t in arms_of(r)) and any(mentions(t, P("address")) for c, t in arms_of(r))
     obs.add({"C34"}, "SUBTRACE", "StaticTrace.get_inner_trace", oki, derived=r.ret, expected="self.subtraces[address]", where=W(ST, "get_inner_trace"))
+    # the deprecated compatibility path (a 1-tuple looked up as its component) may only be taken when the address AS GIVEN is not recorded: a call genuinely traced
+    # at ("obs",) must still be found under ("obs",)
+    rewr, guarded = [], True
+    for c_, t_ in arms_of(r):
+        for x in subterms(t_):
+            if is_t(x, "phi") and (x[2] != x[3]) and mentions(x, P("address")) and not (x[2] == P("address") and x[3] == P("address")):
+                rewr.append(x)
+                conj = x[1][2] if is_t(x[1], "bool") and x[1][1] == "and" else (x[1],)
+                if not any(is_t(y, "cmp") and y[1] == "not in" and y[3] == subs for y in conj):
+                    guarded = False
+    obs.add({"C34"}, "SUBTRACE", "StaticTrace.get_inner_trace/compat-guard", (not rewr) or guarded, construct="address rewritten before the lookup", derived=f"{len(rewr)} rewriting arm(s); guarded by `address not in self.subtraces`: {guarded}",
+            expected="the 1-tuple shortcut only when the tuple itself is not a recorded address", where=W(ST, "get_inner_trace"))
 
     # ---------------------------------------------------------------- StaticGenerativeFunction
     SG = prog.cls("StaticGenerativeFunction", MOD)
